@@ -46,6 +46,8 @@ def build(inp, rng):
     else:
         pn = prior.BoundedGaussian(1.55, 0.1, 1.4, 1.7)
     vn = 1.52 if inp["sup"] else 1.9
+    if inp.get("edge"):
+        vn = 1.7            # exactly the upper bound of both index priors: inside the (closed) support
     vals = {}
     if inp["cons"] != "none":
         px = prior.Uniform(1.0, 6.0)
@@ -217,7 +219,8 @@ def run(ctx):
     model_module.calc_holo = counting_calc_holo
     inits = list(g.init)
     if quick:
-        inits = rng.sample(inits, 900)
+        edge = [s_ for s_ in inits if g.states[s_]["inp"].get("edge")]
+        inits = rng.sample([s_ for s_ in inits if s_ not in set(edge)], 820) + rng.sample(edge, min(80, len(edge)))
     classes = {}
     try:
         for sid in inits:
